@@ -295,6 +295,7 @@ def run_property(prop, cfg, tier, seed, scratch, t0):
                 discharged += max(max(fr.obligations, 1) - max(nfail, 1), 0)
     # ---- xrun: executable small-scope checks of the real compiled crates against reference functions (bounded; concrete counterexamples)
     xrun_rows = []
+    all_xrun_failures = []
     for xs in cfg.get('xrun', []):
         if tier == 'quick' and xs.get('tier') == 'thorough':
             continue
@@ -306,6 +307,7 @@ def run_property(prop, cfg, tier, seed, scratch, t0):
             bounded.append({'harness': 'xrun::' + xs['suite'], 'bound': xs.get('bound', ''), 'checks': xr['cases'], 'wall_s': xr.get('wall_s'),
                             'claim': xs.get('claim', ''), 'kind': 'exhaustive execution of the real code over the stated scope against the reference'})
         elif xr['status'] == 'failed':
+            all_xrun_failures.extend(xr['failures'])
             for fl in xr['failures'][:3]:
                 label = 'xrun::%s::%s' % (xs['suite'], fl['case'])
                 err = {'message': 'xrun: real code disagrees with the reference: ' + fl.get('clause', ''), 'line': None, 'clause': fl.get('clause', ''),
@@ -318,6 +320,14 @@ def run_property(prop, cfg, tier, seed, scratch, t0):
                     violations.append((label, err, 'xrun'))
         else:
             undecided.append('xrun suite %s: %s' % (xs['suite'], xr['status']))
+    # ---- a failed Verus obligation carries no input: attach the concrete xrun case that exercises the same operation, if one failed
+    if all_xrun_failures:
+        for lab, err, backend in violations:
+            if backend == 'verus' and not err.get('witness'):
+                fl = _match_case(lab, all_xrun_failures)
+                if fl:
+                    err['witness'] = [{'suite': fl['suite'], 'case': fl['case'], 'detail': fl.get('detail', ''),
+                                       'note': 'input found by xrun on the real code for the operation this obligation is about'}]
     # ---- guarded probes: single inputs that may exhaust memory / time, run in a subprocess under limits
     for pr in cfg.get('probes', []):
         import xrun_run
@@ -441,6 +451,25 @@ def run_property(prop, cfg, tier, seed, scratch, t0):
         print('OK property=%s tier=%s obligations=%d discharged=%d functions=%d bounded_checks=%d assumed=%d wall=%.1fs' % (
             prop, tier, obligations, discharged, len(fn_rows), len(bounded), len(assumed), wall))
     return rc
+
+
+_ALIAS = {'exec': ['gas/'], 'eval': ['eval/'], 'read_key_range': ['stateread'], 'read_key_range_ext': ['stateread'], 'pop_key_range_args': ['stateread'],
+          'write_values_to_memory': ['stateread'], 'step_op_state_reads': ['stateread'], 'key_range': ['stateread'], 'step_op_pred': ['pred('], 'step_op_alu': ['alu('],
+          'step_op_stack': ['stack('], 'step_op_memory': ['memory('], 'step_op_access': ['access('], 'step_op_total_control_flow': ['totalcontrolflow('],
+          'reserve_zeroed': ['reserve'], 'mod_': ['(mod)'], 'repeat': ['repeat/'], 'repeat_to': ['repeat/'], 'repeat_from': ['repeat/'], 'counter': ['repeat/'],
+          'pop_len_words': ['drop', 'storerange', 'eqrange'], 'pop_len_words2': ['eqset'], 'store_range': ['storerange'], 'load_range': ['loadrange'],
+          'this_address': ['thisaddress'], 'this_contract_address': ['thiscontractaddress'], 'predicate_data': ['predicatedata)'], 'eq_range': ['eqrange'], 'eq_set': ['eqset']}
+
+
+def _match_case(label, failures):
+    """Heuristic link from a Verus obligation label (unit::module::fn) to a failing xrun case about the same operation."""
+    fn = label.split('::')[-1].lower()
+    keys = _ALIAS.get(fn, []) + [fn.replace('_', '')]
+    for fl in failures:
+        c = fl.get('case', '').lower()
+        if any(k and k in c for k in keys):
+            return fl
+    return None
 
 
 def git_head():
